@@ -61,6 +61,8 @@ def _work(args):
     except BaseException as e:  # harness crash: report, never a violation
         res = {"harness_errors": ["%s on item %r: %s" % (type(e).__name__, _short(item), traceback.format_exc()[-1500:])]}
     res["_wall"] = time.time() - t0
+    if res["_wall"] > 45:
+        res.setdefault("notes", []).append("slow item %.0fs: %s" % (res["_wall"], _short(item, 160)))
     res["_funcs"] = sorted(_funcs - before)
     return res
 
